@@ -122,7 +122,7 @@ func init() {
 	parserJudges["C01"] = judgeC01
 	register(&Check{
 		ID:        "C01",
-		QuickSecs: 900, ThoroSecs: 1500,
+		QuickSecs: 900, ThoroSecs: 3000,
 		Rule: "input-space exploration: value texts = all strings of length <= Lv over 13 characters {a - = space newline 1 . e + _ x é 0xFF} plus 74 numeric boundary / malformed numerals and special tokens (mixed-case texts with `=` under SetMapKeysToLower among them); " +
 			"each x 6 scalar option kinds (string, int, float64 and their optional-value forms, half declared through *Var) x 3 spellings (--name=v, --name v, unique abbreviation) x 8 contexts (alone, after/before a positional, before a flag, inside a command, second occurrence, before a wrapper command with same-named options of its own, behind the help option) x 3 modes; " +
 			"plus every argv of length <= 4 over flag / optional-value tokens, and over bundles of multibyte flag letters that share their first byte and an increment option bound to a set environment variable; values, Called, CalledAs, error and remaining compared with the reference model (strconv.Atoi / ParseFloat define validity); " +
